@@ -35,10 +35,20 @@ def sd_of(cov):
     return np.maximum(sd, 1e-7 * smax)
 
 
-def cmp_mean(ma, mb, sd, rtol=RTOL):
+WORST = {}
+
+
+def _track(label, err, tol, rtol):
+    if label and err.size:
+        w = float(np.nanmax(err / tol)) * rtol
+        WORST[label] = max(WORST.get(label, 0.0), w)
+
+
+def cmp_mean(ma, mb, sd, rtol=RTOL, label=None):
     mag = max(1.0, float(np.max(np.abs(ma))))
     tol = rtol * (np.abs(ma) + sd) + 1e-13 * mag
     err = np.abs(ma - mb)
+    _track(label, err, tol, rtol)
     bad = ~(err <= tol)
     if bad.any():
         k, i = np.argwhere(bad)[0]
@@ -46,9 +56,10 @@ def cmp_mean(ma, mb, sd, rtol=RTOL):
     return None
 
 
-def cmp_cov(ca, cb, sd, rtol=RTOL):
+def cmp_cov(ca, cb, sd, rtol=RTOL, label=None):
     tol = rtol * (sd[:, :, None] * sd[:, None, :] + np.abs(ca)) + 1e-300
     err = np.abs(ca - cb)
+    _track(label, err, tol, rtol)
     bad = ~(err <= tol)
     if bad.any():
         k, i, j = np.argwhere(bad)[0]
@@ -87,6 +98,11 @@ def tame(c, fac=4):
 def gen_ts0(ck, quick):
     c = gen.gen_solver_case(ck.rng, ck.tier, kinds=("iso",), strats=STRATS, lins=("ts0",), calibs=CALIBS,
                             qmax=4 if quick else 6)
+    for _ in range(3):
+        if c["d"] > 1 or ck.rng.random() < 0.25:
+            break
+        c = gen.gen_solver_case(ck.rng, ck.tier, kinds=("iso",), strats=STRATS, lins=("ts0",), calibs=CALIBS,
+                                qmax=4 if quick else 6)
     c["base"] = None
     return c
 
@@ -236,10 +252,10 @@ def ts0_three(ck, n):
             (md, Pd, sd_), (mi, Pi, si), (mb, Pb, sb) = arrs(rd), arrs(ri), arrs(rb)
             sd = sd_of(Pd)
             # dense vs isotropic: everything, every mode
-            p = cmp_mean(md, mi, sd)
+            p = cmp_mean(md, mi, sd, label="ts0 dense-iso mean")
             if p:
                 ck.report(f"C14.dense-iso.{cal}.mean", f"{describe(cc)}: {p}", rep)
-            p = cmp_cov(Pd, Pi, sd)
+            p = cmp_cov(Pd, Pi, sd, label="ts0 dense-iso cov")
             if p:
                 ck.report(f"C14.dense-iso.{cal}.cov", f"{describe(cc)}: {p}", rep)
             if sd_.shape != si.shape or not np.all(np.abs(sd_ - si) <= 1e-8 * np.abs(sd_) + 1e-300):
@@ -248,11 +264,11 @@ def ts0_three(ck, n):
                 ck.report(f"C14.dense-iso.{cal}.num_steps", f"{describe(cc)}: {rd['num_steps']} vs {ri['num_steps']}", rep)
             # dense vs block-diagonal: means in none + mle, covariances in none, scale split in mle
             if cal in ("none", "mle"):
-                p = cmp_mean(md, mb, sd)
+                p = cmp_mean(md, mb, sd, label="ts0 dense-blockdiag mean")
                 if p:
                     ck.report(f"C14.dense-blockdiag.{cal}.mean", f"{describe(cc)}: {p}", rep)
             if cal == "none":
-                p = cmp_cov(Pd, Pb, sd)
+                p = cmp_cov(Pd, Pb, sd, label="ts0 dense-blockdiag cov")
                 if p:
                     ck.report(f"C14.dense-blockdiag.{cal}.cov", f"{describe(cc)}: {p}", rep)
             if cal == "mle":
@@ -269,7 +285,7 @@ def ts0_three(ck, n):
                     Pb_n = Pb.copy()
                     for a in range(d):
                         Pb_n[:, a::d, a::d] *= s2d / s2b[a]
-                    p = cmp_cov(Pd, Pb_n, sd, rtol=1e-7)
+                    p = cmp_cov(Pd, Pb_n, sd, rtol=1e-7, label="ts0 dense-blockdiag cov rescaled (mle)")
                     if p:
                         ck.report(f"C14.dense-blockdiag.{cal}.cov-rescaled", f"{describe(cc)}: {p}", rep)
     return stats
@@ -314,10 +330,10 @@ def ts1_decoupled(ck, n):
         for a in range(d):
             ms, Ps, ss = arrs(rs[1 + a])
             sd = sd_of(Ps)
-            p = cmp_mean(ms, mb[:, a::d], sd)
+            p = cmp_mean(ms, mb[:, a::d], sd, label="ts1 blockdiag-scalar mean")
             if p:
                 ck.report(f"C14.blockdiag-scalar.{mode}.mean", f"{describe(c)} dimension {a}: scalar dense vs block: {p}", rep)
-            p = cmp_cov(Ps, Pb[:, a::d, a::d], sd)
+            p = cmp_cov(Ps, Pb[:, a::d, a::d], sd, label="ts1 blockdiag-scalar cov")
             if p:
                 ck.report(f"C14.blockdiag-scalar.{mode}.cov", f"{describe(c)} dimension {a}: scalar dense vs block: {p}", rep)
             if not np.all(np.abs(ss[:, 0] - sb[:, a]) <= 1e-8 * np.abs(ss[:, 0]) + 1e-300):
@@ -353,10 +369,10 @@ def ts1_scalar_jacobian(ck, n):
             continue
         (md, Pd, sd_), (mi, Pi, si) = arrs(rd), arrs(ri)
         sd = sd_of(Pd)
-        p = cmp_mean(md, mi, sd)
+        p = cmp_mean(md, mi, sd, label="ts1 dense-iso mean")
         if p:
             ck.report(f"C14.dense-iso.{mode}.mean", f"{describe(c)} [{c['jac']}]: {p}", rep)
-        p = cmp_cov(Pd, Pi, sd)
+        p = cmp_cov(Pd, Pi, sd, label="ts1 dense-iso cov")
         if p:
             ck.report(f"C14.dense-iso.{mode}.cov", f"{describe(c)} [{c['jac']}]: {p}", rep)
         if sd_.shape != si.shape or not np.all(np.abs(sd_ - si) <= 1e-8 * np.abs(sd_) + 1e-300):
@@ -415,10 +431,10 @@ def adaptive_pair(ck, n):
             continue
         (md, Pd, sd_), (mi, Pi, si) = arrs(rd), arrs(ri)
         sd = sd_of(Pd)
-        p = cmp_mean(md, mi, sd, rtol=1e-8)
+        p = cmp_mean(md, mi, sd, rtol=1e-8, label="adaptive dense-iso mean")
         if p:
             ck.report(f"C14.dense-iso.{mode}.mean", f"{describe(c)}: {p}", rep)
-        p = cmp_cov(Pd, Pi, sd, rtol=1e-8)
+        p = cmp_cov(Pd, Pi, sd, rtol=1e-8, label="adaptive dense-iso cov")
         if p:
             ck.report(f"C14.dense-iso.{mode}.cov", f"{describe(c)}: {p}", rep)
         if sd_.shape != si.shape or not np.all(np.abs(sd_ - si) <= 1e-7 * np.abs(sd_) + 1e-300):
@@ -433,6 +449,7 @@ def main():
     ts1_decoupled(ck, 14 if quick else 150)
     ts1_scalar_jacobian(ck, 14 if quick else 150)
     adaptive_pair(ck, 12 if quick else 100)
+    ck.hist["worst_relative_difference"] = {k: f"{v:.2e}" for k, v in WORST.items()}
     if not pr["ok"] and not ck.violations:
         ck.report("C14.proof", f"proof obligations no longer check: {pr['errors']}",
                   {"broken": pr.get("failed_at", "Props/C14.v"), "errors": pr["errors"]}, nofail=True)
